@@ -76,6 +76,39 @@ pub fn run_case(c: &Case, ctx: &mut Ctx) -> CaseResult {
     if items.len() != pre.len() {
         return Err(Failure::new(format!("polyhedra_iter reported {} nodes, the tree has {}", items.len(), pre.len())));
     }
+    // ---- the same stream through the standard iterator adaptors: whatever way a caller advances the
+    // iterator (nth, skip, step_by, last, count), it must see the items that repeated next() yields
+    {
+        let key = |it: &(usize, usize, usize, Vec<Polytope>)| -> (usize, usize, usize, Vec<(Vec<u64>, u64)>) {
+            let rows = it.3.iter().flat_map(|p| p.mat.outer_iter().zip(p.bias.iter()).map(|(r, b)| (r.iter().map(|x| x.to_bits()).collect::<Vec<u64>>(), b.to_bits())).collect::<Vec<_>>()).collect();
+            (it.0, it.1, it.2, rows)
+        };
+        let want: Vec<_> = items.iter().map(key).collect();
+        let k = if items.is_empty() { 0 } else { (c.script.len() * 7 + c.points.len()) % (items.len() + 1) };
+        let step = 1 + c.script.len() % 4;
+        let adaptors: Vec<(&str, Result<Vec<_>, String>, Vec<_>)> = vec![
+            ("nth(k)", guard(|| tree.polyhedra_iter().nth(k).iter().map(key).collect()), want.iter().skip(k).take(1).cloned().collect()),
+            ("skip(k)", guard(|| tree.polyhedra_iter().skip(k).map(|it| key(&it)).collect()), want.iter().skip(k).cloned().collect()),
+            ("step_by(s)", guard(|| tree.polyhedra_iter().step_by(step).map(|it| key(&it)).collect()), want.iter().step_by(step).cloned().collect()),
+            ("last()", guard(|| tree.polyhedra_iter().last().iter().map(key).collect()), want.last().cloned().into_iter().collect()),
+            ("nth(k) then the rest", guard(|| { let mut it = tree.polyhedra_iter(); let _ = it.nth(k); it.map(|x| key(&x)).collect() }), want.iter().skip(k + 1).cloned().collect()),
+        ];
+        for (name, got, exp) in adaptors {
+            let got = got.map_err(|p| Failure::new(format!("polyhedra_iter().{name} panicked: {p}")))?;
+            if got != exp {
+                return Err(Failure::new(format!(
+                    "polyhedra_iter().{name} with k={k}, s={step} yields {} item(s) that differ from what repeated next() yields (first nodes: got {:?}, expected {:?})",
+                    got.len(),
+                    got.iter().take(3).map(|g| (g.1, g.3.len())).collect::<Vec<_>>(),
+                    exp.iter().take(3).map(|g| (g.1, g.3.len())).collect::<Vec<_>>()
+                )));
+            }
+        }
+        let cnt = guard(|| tree.polyhedra_iter().count()).map_err(|p| Failure::new(format!("polyhedra_iter().count() panicked: {p}")))?;
+        if cnt != items.len() {
+            return Err(Failure::new(format!("polyhedra_iter().count() = {cnt}, but {} items are yielded", items.len())));
+        }
+    }
     let mut reported: BTreeMap<usize, Vec<Row>> = BTreeMap::new();
     for ((depth, idx, nrem, polys), e) in items.iter().zip(&pre) {
         if (*depth, *idx, *nrem) != (e.depth, e.index, e.n_remaining) {
